@@ -242,9 +242,61 @@ def raw_snapshot(objs):
 # ------------------------------------------------------------------------------------------------------------------
 # argument construction (with optional re-layout of one named array argument)
 
+CONTAINER_KINDS = ('list', 'tuple', 'f64', 'int', 'view', 'neg', 'npscalars')
+
+def _plain_numbers(x):
+    """flat sequence of real numbers (no None, no nesting)?"""
+    if isinstance(x, np.ndarray):
+        return x.ndim == 1 and x.dtype.kind in 'fiu' and x.size > 0
+    return isinstance(x, (list, tuple)) and len(x) > 0 and all(isinstance(v, (int, float, np.integer, np.floating)) and not isinstance(v, (bool, np.bool_)) for v in x)
+
+def container_kinds(x):
+    """the container / dtype variants of an array-like argument that carry the SAME values (cross stream): a flat sequence of numbers as list, tuple,
+    float64 ndarray (what the optimisers return), integer ndarray (only when every value is integral), non-contiguous and negatively strided float64 views,
+    list of numpy scalars; any other list (None entries, nested) as tuple / list"""
+    if isinstance(x, np.ma.MaskedArray):
+        return []
+    if isinstance(x, (int, float)) and not isinstance(x, bool):
+        return ['0d', '1el', 'npfloat']
+    if _plain_numbers(x):
+        vals = [float(v) for v in (x.tolist() if isinstance(x, np.ndarray) else x)]
+        ks = ['list', 'tuple', 'f64', 'view', 'neg', 'npscalars']
+        if all(v == int(v) and abs(v) < 2 ** 52 for v in vals):
+            ks.append('int')
+        return ks
+    if isinstance(x, (list, tuple)):
+        return ['list', 'tuple']
+    return []
+
+def to_container(x, kind):
+    """same values, another container; the integer-ness of Python ints is kept in list / tuple form"""
+    if kind in ('list', 'tuple') and not _plain_numbers(x):
+        return list(x) if kind == 'list' else tuple(x)
+    src = x.tolist() if isinstance(x, np.ndarray) else list(x)
+    n = len(src)
+    if kind == 'list':
+        return list(src)
+    if kind == 'tuple':
+        return tuple(src)
+    if kind == 'npscalars':
+        return [np.int64(v) if isinstance(v, int) else np.float64(v) for v in src]
+    if kind == 'f64':
+        return np.array(src, dtype=np.float64)
+    if kind == 'int':
+        return np.array([int(v) for v in src], dtype=np.int64)
+    if kind == 'view':
+        big = np.full(2 * n + 1, 7.25); v = big[1::2]; v[...] = src
+        return v
+    if kind == 'neg':
+        big = np.full(3 * n + 3, 7.25); seg = big[n:2 * n]; seg[...] = src[::-1]
+        return seg[::-1]
+    raise ValueError(kind)
+
+
 class Args:
-    def __init__(self, layout=None, rng_seed=0):
+    def __init__(self, layout=None, rng_seed=0, cont=None):
         self.layout = layout or {}
+        self.cont = cont or {}      # name -> container kind (cross stream): the argument is handed over in that container, same values
         self.names = {}             # name -> ndim
         self.frozen = {}            # name -> object to freeze
         self.alias_check = []       # names of array arguments the result must not share memory with
@@ -256,12 +308,31 @@ class Args:
         v = self.layout.get(name)
         if v:
             a = relayout(a, v, self.rs)
+        if name in self.cont:
+            a = to_container(a, self.cont[name])
         self.frozen[name] = a
         if alias:
             self.alias_check.append(name)
         return a
 
+    def scalar(self, name, v):
+        """a SCALAR argument (cross stream only): handed over as a 0-d float64 ndarray / 1-element array / numpy float64 - objects a callee can modify in place
+        (`T -= dt` re-binds a Python float, but writes into a 0-d ndarray)"""
+        if not self.cont or callable(v) or isinstance(v, bool):
+            return v
+        k = self.cont.get(name)
+        if k == '0d':
+            v = np.array(float(v))
+        elif k == '1el':
+            v = np.array([float(v)])
+        elif k == 'npfloat':
+            v = np.float64(v)
+        self.frozen[name] = v
+        return v
+
     def keep(self, name, obj):
+        if name in self.cont and obj is not None:
+            obj = to_container(obj, self.cont[name])
         self.frozen[name] = obj
         return obj
 
@@ -385,6 +456,18 @@ def model_m5(params, ns, pts):
 def model_two_epoch_theta(params, ns, pts):
     return params[2] * dadi.Demographics1D.two_epoch(params[:2], ns, pts)
 
+def model_two_epoch_g(params, ns, pts):
+    """two epochs with selection: (nu, T, gamma) - gamma = 0 is a meaningful ZERO-valued parameter (the nested value of the neutral model)"""
+    nu, T, gamma = params
+    xx = _grid(pts)
+    phi = PhiManip.phi_1D(xx, gamma=gamma)
+    phi = Integration.one_pop(phi, xx, T, nu, gamma=gamma)
+    return Spectrum.from_phi(phi, ns, (xx,))
+
+def model_two_epoch_g_theta(params, ns, pts):
+    """the same with theta as an explicit LAST parameter (multinom=False)"""
+    return params[3] * model_two_epoch_g(params[:3], ns, pts)
+
 def model_split_mig_sw(params, ns, pts):
     """a second two-population model with the parameter list of split_mig (population sizes exchanged)"""
     nu1, nu2, T, m = params
@@ -397,6 +480,7 @@ MODELS = {
     'snm_2d': dadi.Demographics2D.snm_2d, 'split_mig': dadi.Demographics2D.split_mig, 'IM': dadi.Demographics2D.IM,
     'bottlegrowth_2d': dadi.Demographics2D.bottlegrowth_2d,
     'm3': model_m3, 'm4': model_m4, 'm5': model_m5, 'two_epoch_theta': model_two_epoch_theta,
+    'two_epoch_g': model_two_epoch_g, 'two_epoch_g_theta': model_two_epoch_g_theta,
 }
 
 MODELS_EX = {k: Numerics.make_extrap_func(v) for k, v in MODELS.items()}      # made once, like func_ex in a user script
@@ -432,6 +516,9 @@ def demes_graph(kind):
 def b_sp(A, s):
     fs = mk_fs(A, 'self', s['fs'])
     m = s['m']; a = copy.deepcopy(s.get('a', []))
+    if A.cont:
+        # cross stream: the list arguments of the method one by one (arg0, arg1 ...), each in the container asked for
+        a = [A.keep('arg%d' % i, v) if isinstance(v, (list, tuple)) else v for i, v in enumerate(a)]
     A.keep('args', a)
     if m in ('add', 'sub', 'mul', 'div'):
         other = mk_fs(A, 'other', s['fs2'])
@@ -590,30 +677,30 @@ def b_integ(A, s):
             return lambda t, v=v: v * (1 + 0.5 * t)
         return v
     if d == 1:
-        kw['nu'] = par(s['nu'][0], 0); kw['gamma'] = s['gamma'][0]; kw['h'] = s['h'][0]
+        kw['nu'] = A.scalar('nu', par(s['nu'][0], 0)); kw['gamma'] = A.scalar('gamma', s['gamma'][0]); kw['h'] = A.scalar('h', s['h'][0])
         if s.get('frozen'):
             kw['frozen'] = bool(s['frozen'][0])
     else:
         for i in range(d):
-            kw['nu%d' % (i + 1)] = par(s['nu'][i], i)
-            kw['gamma%d' % (i + 1)] = s['gamma'][i]
-            kw['h%d' % (i + 1)] = s['h'][i]
+            kw['nu%d' % (i + 1)] = A.scalar('nu%d' % (i + 1), par(s['nu'][i], i))
+            kw['gamma%d' % (i + 1)] = A.scalar('gamma%d' % (i + 1), s['gamma'][i])
+            kw['h%d' % (i + 1)] = A.scalar('h%d' % (i + 1), s['h'][i])
             if s.get('frozen'):
                 kw['frozen%d' % (i + 1)] = bool(s['frozen'][i])
         if s.get('m'):
             for i in range(d):
                 for j in range(d):
                     if i != j:
-                        kw['m%d%d' % (i + 1, j + 1)] = s['m'][i][j]
-    kw['theta0'] = s.get('theta0', 1.0)
-    kw['initial_t'] = s.get('initial_t', 0)
+                        kw['m%d%d' % (i + 1, j + 1)] = A.scalar('m%d%d' % (i + 1, j + 1), s['m'][i][j])
+    kw['theta0'] = A.scalar('theta0', s.get('theta0', 1.0))
+    kw['initial_t'] = A.scalar('initial_t', s.get('initial_t', 0))
     f = getattr(Integration, INTEG[d])
     if s.get('X'):
         # the X-chromosome integrator (one population): same time-step machinery, two more parameters
         assert d == 1
         f = Integration.one_pop_X
-        kw['beta'] = s.get('beta', 1.5); kw['alpha'] = s.get('alpha', 2.0)
-    T = s['T']
+        kw['beta'] = A.scalar('beta', s.get('beta', 1.5)); kw['alpha'] = A.scalar('alpha', s.get('alpha', 2.0))
+    T = A.scalar('T', s['T'])
     return lambda: f(phi, xx, T, **kw)
 
 def b_pm(A, s):
@@ -646,7 +733,8 @@ def b_pm(A, s):
             kw['m12'] = s.get('m12', 0)
         return lambda: f(PhiManip.reorder_pops(phi, order), xx, s['T'], **kw)
     if k == 'phi_1D':
-        return lambda: PhiManip.phi_1D(xx, nu=s.get('nu', 1.0), theta0=s.get('theta0', 1.0), gamma=s.get('gamma', 0), h=s.get('h', 0.5))
+        sc = {n: A.scalar(n, s.get(n, dflt)) for n, dflt in (('nu', 1.0), ('theta0', 1.0), ('gamma', 0), ('h', 0.5))}
+        return lambda: PhiManip.phi_1D(xx, nu=sc['nu'], theta0=sc['theta0'], gamma=sc['gamma'], h=sc['h'])
     if k == 'phi_1D_genic':
         return lambda: PhiManip.phi_1D_genic(xx, nu=s.get('nu', 1.0), theta0=s.get('theta0', 1.0), gamma=s.get('gamma', 0))
     if k == 'phi_1D_snm':
@@ -793,7 +881,7 @@ def b_gim(A, s):
     p0 = A.keep('p0', list(s['p0']))
     data = mk_fs(A, 'data', s['data'])
     boots = [mk_fs(A, 'boot%d' % i, b) for i, b in enumerate(s.get('boots', []))]
-    A.keep('all_boot', boots)
+    boots = A.keep('all_boot', boots)
     pts = A.keep('pts', list(s['pts']))
     f = s['f']
     kw = {'multinom': s.get('multinom', True), 'eps': s.get('eps', 0.01)}
@@ -805,6 +893,37 @@ def b_gim(A, s):
             return Godambe.LRT_adjust(fe, pts, boots, p0, data, nested, **kw)
         return lambda: [run(p0) for p0 in p0s]
     bta = A.keep('boot_theta_adjusts', list(s['boot_theta_adjusts'])) if s.get('boot_theta_adjusts') else None
+    if s.get('fseq') or s.get('_repeat') or f in ('Wald', 'score', 'godambe', 'hess', 'grad', 'chi2'):
+        # cross stream: every public function of Godambe.py, all on the SAME argument objects, in the order of `fseq`
+        nested = A.keep('nested_indices', list(s['nested'])) if s.get('nested') is not None else None
+        full = A.keep('full_params', list(s['full_params'])) if s.get('full_params') is not None else None
+        log = s.get('log', False)
+        eps = kw['eps']
+        def ll_func(params, d):
+            return Inference.ll(fe(params, d.sample_sizes, pts), d)
+        def one(g):
+            if g == 'FIM':
+                return Godambe.FIM_uncert(fe, pts, p0, data, log=log, return_FIM=s.get('return_mat', True), **kw)
+            if g == 'GIM':
+                return Godambe.GIM_uncert(fe, pts, boots, p0, data, log=log, return_GIM=s.get('return_mat', True), boot_theta_adjusts=bta, **kw)
+            if g == 'LRT':
+                return Godambe.LRT_adjust(fe, pts, boots, p0, data, nested, boot_theta_adjusts=bta, **kw)
+            if g == 'Wald':
+                return Godambe.Wald_stat(fe, pts, boots, p0, data, nested, full, adj_and_org=s.get('adj_and_org', True), **kw)
+            if g == 'score':
+                return Godambe.score_stat(fe, pts, boots, p0, data, nested, adj_and_org=s.get('adj_and_org', True), **kw)
+            if g == 'godambe':
+                return Godambe.get_godambe(fe, pts, boots, p0, data, eps, log=log, just_hess=s.get('just_hess', False), **({'boot_theta_adjusts': bta} if bta else {}))
+            if g == 'chi2':
+                return Godambe.sum_chi2_ppf(p0, weights=full if full is not None else (0, 1))
+            if g == 'hess':
+                return Godambe.get_hess(ll_func, p0, eps, args=[data])
+            if g == 'grad':
+                return Godambe.get_grad(ll_func, p0, eps, args=[data])
+            raise ValueError(g)
+        if s.get('fseq'):
+            return lambda: [one(g) for g in s['fseq']]
+        return lambda: one(f)
     if f == 'FIM':
         return lambda: Godambe.FIM_uncert(fe, pts, p0, data, log=s.get('log', False), return_FIM=s.get('return_mat', False), **kw)
     if f == 'GIM':
@@ -1113,15 +1232,33 @@ def apply_settings(spec):
     return done
 
 
+def type_picture(o, depth=0):
+    """container type / dtype / shape / strides of an argument (canon sees values only)"""
+    if isinstance(o, np.ndarray):
+        return [type(o).__name__, o.dtype.str, list(o.shape), list(o.strides)]
+    if isinstance(o, (list, tuple)) and depth < 3:
+        return [type(o).__name__] + [type_picture(v, depth + 1) for v in o]
+    return type(o).__name__
+
 def evaluate(spec, layout=None, full=False):
-    A = Args(layout)
+    A = Args(layout, cont=spec.get('_cont'))
     rec = {}
     try:
         apply_settings(spec)
         thunk = BUILDERS[spec['op']](A, spec)
     except Exception as e:
         return {'build_error': type(e).__name__ + ': ' + str(e)[:300]}, None, A
-    before = {n: canon(o) for n, o in A.frozen.items()}
+    repeat = bool(spec.get('_repeat'))
+    def picture():
+        p = {n: canon(o) for n, o in A.frozen.items()}
+        if repeat:
+            # cross stream: bit-for-bit - the container types / dtypes / strides and the raw bytes of every buffer as well
+            p = {n: [v, type_picture(A.frozen[n])] for n, v in p.items()}
+            raw = raw_snapshot(A.frozen)
+            for n in p:
+                p[n].append(sorted((l, h) for l, h in raw.items() if l == n or l.startswith(n + '.') or l.startswith(n + '[')))
+        return p
+    before = picture()
     try:
         res = thunk()
         c = canon(res)
@@ -1131,22 +1268,40 @@ def evaluate(spec, layout=None, full=False):
         c = ['error', type(e).__name__, str(e)[:200]]
         rec['digest'] = digest(c)
         rec['error'] = type(e).__name__ + ': ' + str(e)[:200]
-    after = {n: canon(o) for n, o in A.frozen.items()}
+    after = picture()
     rec['mutated'] = sorted(n for n in before if before[n] != after[n])
     if rec['mutated']:
         rec['mutated_detail'] = {n: {'before': before[n], 'after': after[n]} for n in rec['mutated'] if len(json.dumps(before[n])) < 2000}
+    if repeat:
+        # the SAME call again, at once, on the very same argument objects
+        rec['containers'] = {n: container_kinds(o) for n, o in A.frozen.items()}
+        rec['value'] = json.dumps(c)[:300]
+        try:
+            res2 = thunk()
+            c2 = canon(res2)
+        except Exception as e:
+            res2 = None
+            c2 = ['error', type(e).__name__, str(e)[:200]]
+        rec['repeat_digest'] = digest(c2)
+        rec['repeat_value'] = json.dumps(c2)[:300]
+        if ('fseq' in spec) and isinstance(res2, list):
+            rec['repeat_elements'] = [digest(canon(x)) for x in res2]
+        after2 = picture()
+        rec['mutated_by_repeat'] = sorted(n for n in before if before[n] != after2[n])
+        if rec['mutated_by_repeat'] and not rec['mutated']:
+            rec['mutated_detail'] = {n: {'before': before[n], 'after': after2[n]} for n in rec['mutated_by_repeat'] if len(json.dumps(before[n])) < 2000}
     al = []
     if res is not None:
         for n in A.alias_check:
             r = np.asarray(np.ma.getdata(res)) if isinstance(res, np.ndarray) else None
-            if r is not None and np.shares_memory(r, A.frozen[n]):
+            if r is not None and isinstance(A.frozen[n], np.ndarray) and np.shares_memory(r, A.frozen[n]):
                 al.append(n)
     rec['aliased'] = al
     rec['result_is_arg'] = [n for n in A.alias_check if res is A.frozen[n]]
     if res is not None:
         # EVERY buffer of the result (data, mask, label lists) against every buffer of every argument and of every module-level object
         rec['alias_pairs'], rec['array_like'] = alias_pairs(res, A.frozen)
-    if (spec.get('seq') or 'evals' in spec) and isinstance(res, list):
+    if (spec.get('seq') or 'evals' in spec or 'fseq' in spec) and isinstance(res, list):
         rec['elements'] = [digest(canon(x)) for x in res]
     if spec['op'] == 'export' and isinstance(res, dict):
         rec['export'] = {'same_text': res['text'] == res['text_contiguous_copy'], 'c_contiguous': res['c_contiguous'], 'f_contiguous': res['f_contiguous'],
@@ -1484,9 +1639,23 @@ def mode_mutate(p):
     return {'calls': out}
 
 
+def mode_crossnames(p):
+    """cross stream: the arguments of each call (names under which the builder freezes them) and the container variants each one admits - nothing is called"""
+    out = []
+    for spec in p['calls']:
+        A = Args(cont={'?': 'list'})          # (a non-empty table: the builders then register every list argument under its own name)
+        try:
+            BUILDERS[spec['op']](A, spec)
+            out.append({'containers': {n: container_kinds(o) for n, o in A.frozen.items()},
+                        'types': {n: type_picture(o) if not isinstance(o, np.ma.MaskedArray) else type(o).__name__ for n, o in A.frozen.items()}})
+        except Exception as e:
+            out.append({'build_error': type(e).__name__ + ': ' + str(e)[:300]})
+    return {'calls': out}
+
+
 def dispatch(p):
     mode = p.get('mode', 'eval')
-    return {'eval': mode_eval, 'layout': mode_layout, 'diagnose': mode_diagnose, 'mutate': mode_mutate}[mode](p)
+    return {'eval': mode_eval, 'layout': mode_layout, 'diagnose': mode_diagnose, 'mutate': mode_mutate, 'crossnames': mode_crossnames}[mode](p)
 
 
 def mode_batch(p):
